@@ -117,8 +117,9 @@ def unit_serve(select, panic_tags=("C13",), precond=False, mp=None, prep=False, 
         "extra": KANI_LIGHT,
         "weight": 4,
         # the one-poll multipart instances and the precondition groups are small problems
-        "weight_of": lambda h: 1 if "::mpgen::" in h else 4,
-        "mem_kb": 30_000_000,
+        # 206 / multi-range instances peak at 20-30 GB: at most two of them at a time
+        "weight_of": lambda h: 1 if "::mpgen::" in h else (8 if ("serve_multi_" in h or "serve_single_" in h) else 4),
+        "mem_kb": 40_000_000,
         "timeout": {"quick": 1500, "thorough": 3600},
     }
 
@@ -277,8 +278,10 @@ PROPS["C02"] = dict(PROPS["C01"], units=lambda tier, seed: [
     unit_body(["exactlen_honour"]),
 ])
 PROPS["C02"]["explanation"] = ("Same executions as C01 for complete and single-range GET responses: the harness entity's chunks "
-    "denote entity byte positions, so the body is compared position by position with the range named by Content-Range "
-    "(parsed back) and with the argument of Entity::get_range; contiguity is asserted frame by frame.")
+    "denote entity byte positions. Complete 200 bodies are drained and compared position by position (contiguity frame by frame). "
+    "A single-range 206 is checked before the first poll: Content-Range (parsed back) names a-b/L, Content-Length = b-a+1, and the body is the "
+    "length-checking stream built over exactly Entity::get_range(a..b+1) with an exact size hint of that length; what that stream then "
+    "delivers for ANY contract-honouring entity stream is the stream-level harness exactlen_honour (draining a 206 inside serve() exhausts 24 GB).")
 
 PROPS["C03"] = {
     "units": lambda tier, seed: [
